@@ -819,23 +819,30 @@ func findResolved(unresolved []*usesUnresolved, target *Uses) *usesResolved {
 }
 
 func (r *resolver) cloneDefs(parent HasDataDefinitions, defs []Definition, when *When) []Definition {
-	if when != nil {
-		handedDown := *when
-		handedDown.fromAncestor = true
-		when = &handedDown
+	// the when of the uses, with the whens it was handed itself (a uses in a grouping that
+	// is used with a when), each a copy marked as coming from above
+	handedDown := func(own *When) *When {
+		var first, last *When
+		for w := when; w != nil; w = w.also {
+			c := *w
+			c.fromAncestor = true
+			c.also = nil
+			if first == nil {
+				first = &c
+			} else {
+				last.also = &c
+			}
+			last = &c
+		}
+		// the when the node states itself comes last
+		last.also = own
+		return first
 	}
 	copy := make([]Definition, len(defs))
 	for i, d := range defs {
 		copy[i] = d.(cloneable).clone(parent).(Definition)
 		if when != nil {
-			if own := copy[i].(HasWhen).When(); own != nil {
-				// the node states a when of its own
-				both := *when
-				both.also = own
-				copy[i].(HasWhen).setWhen(&both)
-			} else {
-				copy[i].(HasWhen).setWhen(when)
-			}
+			copy[i].(HasWhen).setWhen(handedDown(copy[i].(HasWhen).When()))
 		}
 	}
 	return copy
